@@ -153,10 +153,15 @@ def get_image_quadrants(IM, reorient=True, symmetry_axis=None,
         if np.sum(use_quadrants)<4:
             warnings.warn("Using Fourier transformation to symmetrize the"
                           " data will use all 4 quadrants!!")
+        # the mirror axis is the image center, (size - 1)/2, not index 0:
+        # move it to the FFT origin with a phase factor, drop the imaginary
+        # components there and move it back
         if 0 in symmetry_axis:
-            IM = fftpack.ifft(fftpack.fft(IM).real).real
+            ph = np.exp(-1j * np.pi * (m - 1) / m * np.arange(m))
+            IM = fftpack.ifft(ph * (fftpack.fft(IM) * ph.conj()).real).real
         if 1 in symmetry_axis:
-            IM = fftpack.ifft(fftpack.fft(IM.T).real).T.real
+            ph = np.exp(-1j * np.pi * (n - 1) / n * np.arange(n))
+            IM = fftpack.ifft(ph * (fftpack.fft(IM.T) * ph.conj()).real).T.real
 
     # define 4 quadrants of the image
     # see definition above
